@@ -2,7 +2,8 @@
     specification [PathTable.gi] of its format, is total on built trees, deterministic, and its
     table covers the tree at every depth. *)
 From ClapModel Require Import Base.Bytes Complete.AotTree Complete.TextTree Complete.BashModel Complete.AotProofs
-  Complete.BashProofs Escape.EscapeModel Complete.PathTable Complete.ElvishModel.
+  Complete.BashProofs Escape.EscapeModel Escape.ShellLex Escape.EscapeProofs Complete.PathTable Complete.PathTableLex
+  Complete.ElvishModel.
 From Coq Require Import String.
 Open Scope N_scope.
 Open Scope list_scope.
@@ -193,4 +194,172 @@ Proof.
   split; [vm_compute; reflexivity|]. split; [left; reflexivity|].
   intros es H. unfold case_block in H. rewrite 3!app_assoc in H. apply infix_prefix in H.
   apply infixb_complete in H. vm_compute in H. discriminate.
+Qed.
+
+(** ---- C17: whole-script structure invariance under the elvish lexer model ---- *)
+(** outside every literal and comment: between words, in a bare word, just after a closing quote *)
+Definition el_outer (st : estate) : bool := match st with EB | EW | ESQQ => true | _ => false end.
+(** characters a name may contain: everything except the two quotes and the comment sign *)
+Definition el_plain (c : N) : bool := negb ((c =? 39) || (c =? 34) || (c =? 35)).
+
+Lemma el_open st : el_outer st = true -> fst (el_step st 39) = ESQ.
+Proof. destruct st; intros H; try discriminate H; reflexivity. Qed.
+Lemma el_close : el_outer (fst (el_step ESQ 39)) = true.
+Proof. reflexivity. Qed.
+Lemma el_plain_outer st c : el_outer st = true -> el_plain c = true -> el_outer (fst (el_step st c)) = true.
+Proof.
+  intros Hst Hc. unfold el_plain in Hc. rewrite negb_true_iff, !orb_false_iff in Hc.
+  destruct Hc as [[H39 H34] H35].
+  destruct st; try discriminate Hst; cbn [el_step]; unfold el_bare; rewrite ?H39, ?H34, ?H35; cbn [andb];
+    match goal with |- context [if ?b then _ else _] => destruct b end; reflexivity.
+Qed.
+Lemma el_plain_sq c : el_plain c = true -> el_step ESQ c = (ESQ, [Lit c]).
+Proof.
+  intros Hc. unfold el_plain in Hc. rewrite negb_true_iff, !orb_false_iff in Hc.
+  destruct Hc as [[H39 _] _]. cbn [el_step]. now rewrite H39.
+Qed.
+
+Notation el_sim := (sim el_step el_outer).
+Notation el_body := (body el_step ESQ).
+Notation el_plainl := (plainl el_plain).
+
+(** fixed template text: computed on the three outer states *)
+Ltac el_fixed :=
+  apply sim_refl_of; let st := fresh "st" in let H := fresh "H" in
+  intros st H; destruct st; try discriminate H; vm_compute; reflexivity.
+
+Lemma el_sim_plain x : el_plainl x = true -> el_sim x x.
+Proof. apply (sim_plain el_step el_outer el_plain el_plain_outer). Qed.
+Lemma el_sim_quote x y : el_body x -> el_body y -> el_sim (39 :: x ++ [39]) (39 :: y ++ [39]).
+Proof. apply (sim_quote el_step el_outer ESQ 39 el_open el_close). Qed.
+Lemma el_body_plain x : el_plainl x = true -> el_body x.
+Proof. apply (body_plain el_step ESQ el_plain el_plain_sq). Qed.
+
+Lemma el_tip_body h data : el_plainl data = true -> el_body (escape_help h data).
+Proof.
+  intros Hd. destruct h as [x|]; cbn [escape_help].
+  - exact (body_transparent el_step ESQ _ _ (elvish_sq_transparent x)).
+  - apply el_body_plain, Hd.
+Qed.
+
+Lemma el_short_sim n t1 t2 : el_plainl n = true -> el_body t1 -> el_body t2 -> el_sim (el_short n t1) (el_short n t2).
+Proof.
+  intros Hn H1 H2.
+  assert (E : forall tip, el_short n tip = preamble ++ [45] ++ n ++ [32] ++ (39 :: tip ++ [39])) by reflexivity.
+  rewrite !E. apply (sim_app el_step el_outer); [el_fixed|].
+  apply (sim_app el_step el_outer); [el_fixed|].
+  apply (sim_app el_step el_outer); [apply el_sim_plain, Hn|].
+  apply (sim_app el_step el_outer); [el_fixed|]. apply el_sim_quote; assumption.
+Qed.
+
+Lemma el_long_sim n t1 t2 : el_plainl n = true -> el_body t1 -> el_body t2 -> el_sim (el_long n t1) (el_long n t2).
+Proof.
+  intros Hn H1 H2.
+  assert (E : forall tip, el_long n tip = preamble ++ [45; 45] ++ n ++ [32] ++ (39 :: tip ++ [39])) by reflexivity.
+  rewrite !E. apply (sim_app el_step el_outer); [el_fixed|].
+  apply (sim_app el_step el_outer); [el_fixed|].
+  apply (sim_app el_step el_outer); [apply el_sim_plain, Hn|].
+  apply (sim_app el_step el_outer); [el_fixed|]. apply el_sim_quote; assumption.
+Qed.
+
+Lemma el_sub_sim n t1 t2 : el_plainl n = true -> el_body t1 -> el_body t2 -> el_sim (el_sub n t1) (el_sub n t2).
+Proof.
+  intros Hn H1 H2.
+  assert (E : forall tip, el_sub n tip = preamble ++ n ++ [32] ++ (39 :: tip ++ [39])) by reflexivity.
+  rewrite !E. apply (sim_app el_step el_outer); [el_fixed|].
+  apply (sim_app el_step el_outer); [apply el_sim_plain, Hn|].
+  apply (sim_app el_step el_outer); [el_fixed|]. apply el_sim_quote; assumption.
+Qed.
+
+Definition el_block_open : bytes := nl ++ lit "        &".
+Definition el_block_mid : bytes := lit "= {".
+Definition el_block_close : bytes := nl ++ lit "        }".
+
+Lemma el_block_sim k x y : el_plainl k = true -> el_sim x y -> el_sim (case_block k x) (case_block k y).
+Proof.
+  intros Hk Hxy.
+  assert (E : forall z, case_block k z = el_block_open ++ (39 :: k ++ [39]) ++ el_block_mid ++ z ++ el_block_close).
+  { intros z. unfold case_block, el_block_open, el_block_mid, el_block_close.
+    rewrite <- !app_assoc. cbn [app]. rewrite <- !app_assoc. reflexivity. }
+  rewrite !E. apply (sim_app el_step el_outer); [el_fixed|].
+  apply (sim_app el_step el_outer); [apply el_sim_quote; apply el_body_plain, Hk|].
+  apply (sim_app el_step el_outer); [el_fixed|].
+  apply (sim_app el_step el_outer); [exact Hxy|el_fixed].
+Qed.
+
+(** the table: ANY two assignments of description texts *)
+Theorem elvish_table_sim c t1 t2 prev : cmd_plain el_plain c = true -> el_plainl prev = true ->
+  el_sim (gi el_fmt c t1 prev) (gi el_fmt c t2 prev).
+Proof.
+  intros Hc Hp.
+  exact (sim_gi el_step el_outer ESQ el_plain el_fmt eq_refl
+           el_tip_body el_short_sim el_long_sim el_sub_sim el_block_sim c Hc t1 t2 prev Hp).
+Qed.
+
+(** the whole script *)
+Lemma el_render_sim bin x y : el_plainl bin = true -> el_sim x y -> el_sim (render bin x) (render bin y).
+Proof.
+  intros Hb Hxy.
+  assert (E : forall z, render bin z = head1 ++ bin ++ head2 ++ (39 :: bin ++ [39]) ++ head3 ++ z ++ tail1).
+  { intros z. unfold render. cbn [app]. rewrite <- !app_assoc. reflexivity. }
+  rewrite !E. apply (sim_app el_step el_outer); [el_fixed|].
+  apply (sim_app el_step el_outer); [apply el_sim_plain, Hb|].
+  apply (sim_app el_step el_outer); [el_fixed|].
+  apply (sim_app el_step el_outer); [apply el_sim_quote; apply el_body_plain, Hb|].
+  apply (sim_app el_step el_outer); [el_fixed|].
+  apply (sim_app el_step el_outer); [exact Hxy|el_fixed].
+Qed.
+
+Lemma cmd_plain_bin c bin : cmd_plain el_plain c = true -> c_bin c = Some bin -> el_plainl bin = true.
+Proof.
+  intros Hc Hb. rewrite cmd_plain_unfold, !andb_true_iff in Hc. destruct Hc as [[_ Hbin] _].
+  rewrite Hb in Hbin. exact Hbin.
+Qed.
+
+(** C17, elvish, whole script: for a built tree whose names contain no quote and no comment sign, the
+    scripts generated for ANY two assignments of description texts (help / about of every argument and
+    subcommand: present or absent, empty or not) have the same token skeleton and end in the same lexer state *)
+Theorem elvish_script_structure c t1 t2 s1 s2 :
+  bins_built c -> cmd_plain el_plain c = true ->
+  generate c t1 = Some s1 -> generate c t2 = Some s2 ->
+  skeleton (events el_step EB s1) = skeleton (events el_step EB s2) /\
+  final el_step EB s1 = final el_step EB s2.
+Proof.
+  intros Hb Hc G1 G2. destruct (c_bin c) as [bin|] eqn:Ebin; [|unfold generate in G1; rewrite Ebin in G1; discriminate].
+  rewrite (generate_spec c t1 bin Ebin Hb) in G1. rewrite (generate_spec c t2 bin Ebin Hb) in G2.
+  inversion G1; inversion G2; subst s1 s2; clear G1 G2.
+  pose proof (cmd_plain_bin c bin Hc Ebin) as Hbin.
+  destruct (el_render_sim bin _ _ Hbin (elvish_table_sim c t1 t2 [] Hc eq_refl) EB eq_refl) as (_ & F & K).
+  split; assumption.
+Qed.
+
+(** every text is literal payload: the skeleton of the script is the skeleton of the script generated
+    with NO description text at all (every tooltip is then the spelling itself), and every literal is
+    closed at the end of the script *)
+Theorem elvish_text_is_payload c t s s0 :
+  bins_built c -> cmd_plain el_plain c = true ->
+  generate c t = Some s -> generate c tt_none = Some s0 ->
+  skeleton (events el_step EB s) = skeleton (events el_step EB s0) /\ final el_step EB s = EB.
+Proof.
+  intros Hb Hc G G0. destruct (elvish_script_structure c t tt_none s s0 Hb Hc G G0) as [K F].
+  split; [exact K|].
+  destruct (c_bin c) as [bin|] eqn:Ebin; [|unfold generate in G; rewrite Ebin in G; discriminate].
+  rewrite (generate_spec c t bin Ebin Hb) in G. inversion G; subst s; clear G.
+  pose proof (cmd_plain_bin c bin Hc Ebin) as Hbin.
+  assert (E : render bin (gi el_fmt c t []) =
+              (head1 ++ bin ++ head2 ++ (39 :: bin ++ [39]) ++ head3 ++ gi el_fmt c t []) ++ tail1).
+  { unfold render. repeat (progress (rewrite <- ?app_assoc; cbn [app])). reflexivity. }
+  rewrite E, final_app.
+  assert (O : el_outer (final el_step EB (head1 ++ bin ++ head2 ++ (39 :: bin ++ [39]) ++ head3 ++ gi el_fmt c t [])) = true).
+  { assert (Hs : el_sim (head1 ++ bin ++ head2 ++ (39 :: bin ++ [39]) ++ head3 ++ gi el_fmt c t [])
+                        (head1 ++ bin ++ head2 ++ (39 :: bin ++ [39]) ++ head3 ++ gi el_fmt c t [])).
+    { apply (sim_app el_step el_outer); [el_fixed|].
+      apply (sim_app el_step el_outer); [apply el_sim_plain, Hbin|].
+      apply (sim_app el_step el_outer); [el_fixed|].
+      apply (sim_app el_step el_outer); [apply el_sim_quote; apply el_body_plain, Hbin|].
+      apply (sim_app el_step el_outer); [el_fixed|].
+      exact (elvish_table_sim c t t [] Hc eq_refl). }
+    exact (proj1 (Hs EB eq_refl)). }
+  revert O. generalize (final el_step EB (head1 ++ bin ++ head2 ++ (39 :: bin ++ [39]) ++ head3 ++ gi el_fmt c t [])).
+  intros st O. destruct st; try discriminate O; reflexivity.
 Qed.
